@@ -267,6 +267,19 @@ def main(argv: Optional[List[str]] = None) -> int:
             except Exception:
                 bounded.append({'name': m.__name__ + '.bounded', 'error': traceback.format_exc(), 'failures': [], 'cases': 0, 'bound': ''})
 
+    # --- bounded fallback for harnesses that could not be executed symbolically on THIS tree ---------------------
+    # (e.g. a change introduced a loop over a sequence of symbolic length: the function is then "unreached", which is
+    #  not a verdict; the same harness is run natively on the real code with random inputs -- labelled bounded)
+    for r in results:
+        if r['error'] and r['error_kind'] == 'unreached':
+            hdef = hs[r['i']][0]
+            try:
+                rc = H.random_concrete(hdef, 400 if tier == 'thorough' else 150, seed)
+            except Exception:
+                rc = {'runs': 0, 'rejected_inputs': 0, 'failures': []}
+            bounded.append({'name': 'random-concrete-fallback:' + hdef.id, 'bound': '%d native runs of the harness with random inputs (symbolic execution was unreached: %s)' % (rc['runs'], r['error'][:160]),
+                            'cases': rc['runs'], 'failures': rc['failures']})
+
     # --- verdicts ------------------------------------------------------------------------
     known = load_known()
     errors = [(hs[r['i']][0].id, r['error'], r['error_kind']) for r in results if r['error']]
